@@ -71,6 +71,7 @@ func (w *Queue) Enqueue(workToDo Work, options ...workOption) uuid.UUID {
 		QueuedWork: &QueuedWork{
 			id:       uuid.New(),
 			priority: 1,
+			position: -1, // not in the priority queue (yet)
 			state:    &atomic.Int32{},
 		},
 
@@ -89,11 +90,16 @@ func (w *Queue) Enqueue(workToDo Work, options ...workOption) uuid.UUID {
 	return wi.id
 }
 
-// Dequeue removes from the queue the work item with the specified id.  If the work item is in process, then an error is returned.
+// Dequeue removes from the queue the work item with the specified id.  If the work item is in process or has already been
+// handed to the worker pool, then an error is returned and the item is not affected.
 func (w *Queue) Dequeue(id uuid.UUID) error {
 	if i, ok := w.workItems.Load(id); ok {
 		wi := i.(*workItem)
 		if wi.state.Load() == int32(IN_QUEUE) {
+			if wi.position < 0 {
+				// not (or no longer) in the priority queue: already handed to the worker pool, which will run it
+				return fmt.Errorf("cannot delete work item %v because it is not waiting in the queue", id.String())
+			}
 			w.workQueue.Remove(wi.position)
 			w.workQueue.AdjustPriorities()
 			w.workItems.Delete(wi.id)
@@ -104,12 +110,16 @@ func (w *Queue) Dequeue(id uuid.UUID) error {
 	return nil
 }
 
-// SetPriority changes the priority of the queued work item with the uuid.
+// SetPriority changes the priority of the queued work item with the uuid and re-orders the queue accordingly.
 func (w *Queue) SetPriority(id uuid.UUID, priority int) error {
 	if i, ok := w.workItems.Load(id); ok {
 		wi := i.(*workItem)
 		if wi.state.Load() == int32(IN_QUEUE) {
+			if wi.position < 0 {
+				return fmt.Errorf("cannot adjust priority on work item %v because it is not waiting in the queue", id.String())
+			}
 			wi.priority = priority
+			heap.Fix(w.workQueue, wi.position)
 			w.workQueue.AdjustPriorities()
 		} else if wi.state.Load() == int32(IN_PROGRESS) {
 			return fmt.Errorf("cannot adjust prioroty on work item %v because it is in process", id.String())
